@@ -43,6 +43,9 @@ CHECKS = {
  "C15": dict(engine="storage", ref="5 C15, 3.2",
    text="SlabStorage.tla is the write-back overlay (deltas / cache / ledger) with one action per exported method; TLC computes the closure and checks ReadYourWrites, CacheCoherent, CommitOK, DropReverts, ViewStable. Every transition of the state graph is replayed into the real storage (spec -> impl) and every recorded event, with the full observed deltas/cache/ledger state, must be explained by the specification's action (impl -> spec, all events strict).",
    note="bounded: closure over 3 identifiers (4 in thorough, sampled edges) x 2 versions x 1 fault; random driver 6-8 identifiers x 3 versions; slab payloads are opaque versions carried by real array slabs"),
+ "C20": dict(engine="health", ref="5 C20, 3.8",
+   text="HealthOps.tla defines the healthy predicate over slab reference graphs (every reference resolves, single referrer, same owner, everything reachable from a root, expected root count) and the all-child-references query. Health.tla enumerates EVERY healthy labelled forest over 4 (quick) / 5 (thorough) slabs with two owner patterns and every single corruption of the four kinds (deletion as pending delete, committed delete or missing register), and TLC proves the sanity lemmas (each generated forest healthy, each corrupted graph unhealthy). Every case is built in a real storage, fully loaded, and CheckStorageHealth / GetAllChildReferences must return the Healthy verdict, the true roots and exactly the resolvable / broken references (HealthTrace.tla). The same corruptions are applied to the committed storages of TLC-simulated nested-container walks.",
+   note="GetAllChildReferences is not called on slabs from which a reference cycle is reachable (it does not terminate there; cycles only arise from the 'second reference from a descendant' corruption); foreign-owner corruption only in the enumerated cases; found and fixed one genuine defect (known_findings.json)"),
 }
 NOT_APPLICABLE = [
  {"property_id": "C19", "reason": "no state machine: byte-level robustness of decoders against arbitrary input is outside what a TLA+ specification and trace conformance can decide (DESIGN.md section 6)"},
@@ -81,6 +84,7 @@ def main():
             {"name": "array", "path": "spec/ArraySeq.tla spec/ArrayTree.tla spec/TreeInv.tla spec/Thresholds.tla spec/MC_Array.tla spec/ArrayTrace.tla harness/world.go harness/ops.go harness/array_engine.go", "serves_properties": ["C01", "C05", "C06", "C09", "C13", "C17", "C18"], "kind_free_text": "TLC state graph + simulated walks of the array algorithm replayed into the real Array; traces validated against sequence semantics and TreeInv"},
             {"name": "map", "path": "spec/MapDict.tla spec/MapTree.tla spec/MC_Map.tla spec/MC_MapWalk.tla spec/MapTrace.tla harness/map_engine.go harness/digest.go", "serves_properties": ["C02", "C05", "C06", "C09", "C12", "C13", "C17", "C18"], "kind_free_text": "all digest assignments x histories (TLC) + simulated walks replayed into the real OrderedMap with a table-driven digester"},
             {"name": "nested", "path": "spec/Nested.tla spec/NestedTrace.tla spec/TreeInv.tla harness/nested_engine.go", "serves_properties": ["C01", "C09", "C10", "C11"], "kind_free_text": "TLC-simulated walks of a heap of nested containers with handles, replayed and validated against the expansion of the heap"},
+            {"name": "health", "path": "spec/HealthOps.tla spec/Health.tla spec/HealthTrace.tla harness/health_engine.go", "serves_properties": ["C20"], "kind_free_text": "all healthy forests x all single corruptions built in real storages; CheckStorageHealth judged by the Healthy predicate"},
             {"name": "persist", "path": "spec/ArrayTrace.tla spec/MapTrace.tla spec/MultiRunTrace.tla harness/multirun.go", "serves_properties": ["C03", "C04", "C07", "C08", "C14"], "kind_free_text": "commit / drop-cache / crash events inside container histories with cold reads of the ledger; multi-run acceptor"},
             {"name": "storage", "path": "spec/SlabStorage.tla spec/MC_SlabStorage.tla spec/SlabStorageTrace.tla harness/storage_engine.go", "serves_properties": ["C03", "C04", "C14", "C15"], "kind_free_text": "TLC closure + edge replay + trace validation of PersistentSlabStorage"},
         ],
